@@ -1,5 +1,5 @@
 (** The BMCA pass preserves the instance invariant and never panics. *)
-From SV Require Export Port.InvStep Port.BmcaSpec Port.LemmasC05.
+From SV Require Export Port.InvStep Port.BmcaSpec Port.LemmasC05 Port.BmcaObs.
 
 Definition same_id (p p' : port) : Prop := p_identity p' = p_identity p /\ p_config p' = p_config p.
 Lemma same_id_refl p : same_id p p. Proof. split; reflexivity. Qed.
@@ -53,10 +53,14 @@ Proof.
 Qed.
 
 (** * Per-port candidate *)
+(** a candidate is a well-formed wire value with stepsRemoved < 255 *)
+Definition best_wf (m : best_msg) : Prop :=
+  wf_header (b_header m) /\ wf_ann (b_ann m) /\ an_steps_removed (b_ann m) < 255.
+
 Definition bport_ok (b : bport) : Prop :=
   port_inv (bp_port b) /\
   forall m, bp_best b = Some m ->
-    b_identity m = p_identity (bp_port b) /\ 0 <= an_steps_removed (b_ann m) < 255.
+    b_identity m = p_identity (bp_port b) /\ best_wf m.
 
 Lemma find_best_identity l own b :
   Forall (fun m => b_identity m = own) l -> find_best l = Ok (Some b) -> b_identity b = own.
@@ -80,20 +84,20 @@ Qed.
 
 Lemma calc_local_best_ok p :
   port_inv p -> exists b, calc_local_best p = Ok b /\ bport_ok b /\ pres p (bp_port b) /\
-                          bp_side b = [] /\ p_state (bp_port b) = p_state p.
+                          bp_side b = [] /\ p_state (bp_port b) = p_state p /\ bp_pending b = [].
 Proof.
   intros Hp. unfold calc_local_best.
   destruct (take_best_total (p_identity p) (pc_acceptable (p_config p)) (port_ti p) (p_fml p)) as [[l' ob] E].
   rewrite E. cbn [obind fst snd]. eexists. split; [reflexivity|].
   assert (Hfml : fml_ok (p_identity p) l').
   { eapply bmca_take_best_ok; [|exact E]. apply Hp. }
-  split; [|split; [repeat split; auto|split; reflexivity]].
+  split; [|split; [repeat split; auto|split; [reflexivity|split; reflexivity]]].
   split; cbn [bp_port bp_best].
   - apply fml_register_inv; assumption.
   - intros m ->. split; [eapply take_best_identity; exact E|].
-    destruct Hp as (_ & _ & _ & _ & [Hw Hn] & _). split.
-    + eapply erbest_nn; [exact Hn|exact E].
-    + eapply erbest_qualified; [exact Hw|exact E].
+    destruct Hp as (_ & _ & _ & _ & [Hw Hn] & _).
+    destruct (erbest_nn _ _ _ _ _ _ Hn E) as [H1 H2]. split; [exact H1|split; [exact H2|]].
+    eapply erbest_qualified; [exact Hw|exact E].
 Qed.
 
 (** * The state decision *)
@@ -106,7 +110,7 @@ Proof. unfold compare_d0_best. destruct ob; [rewrite compare_refines_spec; cbn [
 (** S1 is recommended only to the port whose own Erbest is the global Ebest *)
 Lemma recommended_RS1 own ebest erbest st h a :
   recommended_state own ebest erbest st = Ok (Some (RS1 h a)) ->
-  exists g pb, ebest = Some g /\ erbest = Some pb /\ best_eqb g pb = true /\ a = b_ann g.
+  exists g pb, ebest = Some g /\ erbest = Some pb /\ best_eqb g pb = true /\ a = b_ann g /\ h = b_header g.
 Proof.
   unfold recommended_state.
   assert (Hmain :
@@ -121,7 +125,7 @@ Proof.
                          end
           | _ => Ok (Some (RM2 own))
           end) = Ok (Some (RS1 h a)) ->
-    exists g pb, ebest = Some g /\ erbest = Some pb /\ best_eqb g pb = true /\ a = b_ann g).
+    exists g pb, ebest = Some g /\ erbest = Some pb /\ best_eqb g pb = true /\ a = b_ann g /\ h = b_header g).
   { destruct (_ && _).
     - destruct (compare_d0_total (cmp_from_own own) erbest) as [c ->]. cbn [obind].
       destruct c; intros H; discriminate.
@@ -130,9 +134,40 @@ Proof.
       destruct (as_ordering _); try (intros H; discriminate).
       destruct erbest as [pb|]; [|intros H; discriminate].
       unfold compare_global_and_port. destruct (best_eqb g pb) eqn:Eb; cbn [obind].
-      + intros H. inversion H; subst. exists g, pb. auto.
+      + intros H. inversion H; subst. exists g, pb. repeat split; auto.
       + rewrite compare_refines_spec. cbn [obind]. destruct (ord_of_spec _); intros H; discriminate. }
   destruct erbest as [pb|]; destruct st; try exact Hmain; intros H; discriminate.
+Qed.
+
+(** M1 / M2 are recommended with the instance's own defaultDS *)
+Lemma recommended_RM own ebest erbest st d0 :
+  (recommended_state own ebest erbest st = Ok (Some (RM1 d0)) \/
+   recommended_state own ebest erbest st = Ok (Some (RM2 d0))) -> d0 = own.
+Proof.
+  unfold recommended_state.
+  assert (Hmain : forall X : outcome (option recommended),
+    X = (if (1 <=? cq_class (dd_quality own)) && (cq_class (dd_quality own) <=? 127)
+     then let! c := compare_d0_best (cmp_from_own own) erbest in
+          Ok (Some match c with MCWorse p => RP1 (b_header p) (b_ann p) | _ => RM1 own end)
+     else let! c := compare_d0_best (cmp_from_own own) ebest in
+          match c with
+          | MCWorse g => match erbest with
+                         | Some p => let! r := compare_global_and_port g p in Ok (Some r)
+                         | None => Ok (Some (RM3 (b_header g) (b_ann g)))
+                         end
+          | _ => Ok (Some (RM2 own))
+          end) -> (X = Ok (Some (RM1 d0)) \/ X = Ok (Some (RM2 d0))) -> d0 = own).
+  { intros X ->. destruct (_ && _).
+    - destruct (compare_d0_best _ erbest) as [c|]; cbn [obind]; [|intros [H|H]; discriminate].
+      destruct c; intros [H|H]; inversion H; reflexivity.
+    - destruct (compare_d0_best _ ebest) as [c|]; cbn [obind]; [|intros [H|H]; discriminate].
+      destruct c; try (intros [H|H]; inversion H; reflexivity).
+      destruct erbest as [pb|]; [|intros [H|H]; discriminate].
+      unfold compare_global_and_port. destruct (best_eqb b pb); cbn [obind]; [intros [H|H]; discriminate|].
+      destruct (ds_compare _ _) as [o|]; cbn [obind]; [|intros [H|H]; discriminate].
+      destruct o; intros [H|H]; discriminate. }
+  destruct erbest as [pb|]; destruct st; intros H; try (eapply Hmain; [reflexivity|exact H]);
+    destruct H as [H|H]; discriminate.
 Qed.
 
 Lemma best_eqb_identity g pb : best_eqb g pb = true -> b_identity g = b_identity pb.
@@ -143,10 +178,10 @@ Qed.
 (** * Applying a recommendation to one port *)
 Definition rs_ok (b : bport) (rs : recommended) : Prop :=
   match rs with
-  | RS1 h a => pc_master_only (p_config (bp_port b)) = false /\ 0 <= an_steps_removed a < 255
+  | RS1 h a => pc_master_only (p_config (bp_port b)) = false /\ wf_header h /\ wf_ann a /\ an_steps_removed a < 255
+  | RM1 d0 | RM2 d0 => dd_wfb d0 = true
   | _ => True
   end.
-Definition is_RS1 (rs : recommended) : bool := match rs with RS1 _ _ => true | _ => false end.
 
 Lemma bport_ok_with b p' side pend :
   bport_ok b -> port_inv p' -> p_identity p' = p_identity (bp_port b) -> bport_ok (mkBP p' (bp_best b) pend side).
@@ -263,6 +298,15 @@ Proof.
 Qed.
 
 (** * Port state, then data sets *)
+Lemma own_pd_wfb dd : dd_wfb dd = true ->
+  pd_wfb (mkPD (mkPI (dd_clock_identity dd) 0) (dd_clock_identity dd) (dd_quality dd) (dd_prio1 dd) (dd_prio2 dd)) = true.
+Proof.
+  unfold dd_wfb, pd_wfb. cbn [pd_parent pd_gm_identity pd_gm_quality pd_gm_prio1 pd_gm_prio2 pi_clock pi_port].
+  intros H. apply andb_true_iff in H as [H _]. apply andb_true_iff in H as [H _].
+  apply andb_true_iff in H as [H H2]. apply andb_true_iff in H as [H H1]. apply andb_true_iff in H as [H Hq].
+  rewrite H, Hq, H1, H2. reflexivity.
+Qed.
+
 Lemma set_recommended_state_ok b rs d :
   bport_ok b -> rs_ok b rs -> ds_inv d ->
   exists b' d', set_recommended_state b rs d = Ok (b', d') /\ bport_ok b' /\ same_id (bp_port b) (bp_port b') /\
@@ -272,19 +316,28 @@ Proof.
   intros Hb Hrs Hd. unfold set_recommended_state.
   destruct (set_recommended_port_state_ok b rs (ds_default d) Hb Hrs) as (b1 & -> & Hb1 & Hid & Hsl & Hma).
   cbn [obind].
-  assert (Hm : forall par tp, ds_good d (ds_with d 0 par [] tp)).
-  { intros. split; [unfold ds_inv, ds_with; cbn; lia|reflexivity]. }
+  assert (Hm : forall d0, dd_wfb d0 = true ->
+     ds_good d (ds_with d 0 (mkPD (mkPI (dd_clock_identity d0) 0) (dd_clock_identity d0) (dd_quality d0)
+                                  (dd_prio1 d0) (dd_prio2 d0)) [] (mkTP None 0 false false true 160))).
+  { intros d0 H0. split; [|reflexivity]. apply ds_with_inv; try reflexivity; [exact Hd|apply own_pd_wfb; exact H0|cbn; lia]. }
   destruct rs as [d0|d0|h a|h a|h a|h a]; cbn [is_RS1 rs_ok] in *.
   1,2: destruct (dd_slave_only (ds_default d)) eqn:Eso; cbn [andb];
        try rewrite (Hma eq_refl); eexists; eexists; (split; [reflexivity|]);
-       (split; [exact Hb1|]); (split; [exact Hid|]); (split; [exact Hsl|]); (split; [apply Hm|exact Hma]).
+       (split; [exact Hb1|]); (split; [exact Hid|]); (split; [exact Hsl|]); (split; [apply Hm; exact Hrs|exact Hma]).
   1-3: eexists; eexists; (split; [reflexivity|]); (split; [exact Hb1|]); (split; [exact Hid|]); (split; [exact Hsl|]);
        (split; [apply ds_good_refl; exact Hd|exact Hma]).
-  destruct Hrs as [Hmo Hsteps]. destruct Hid as [Hid Hcfg]. rewrite Hcfg, Hmo.
+  destruct Hrs as (Hmo & Hwh & Hwa & Hsteps). destruct Hid as [Hid Hcfg]. rewrite Hcfg, Hmo.
+  assert (H0 : 0 <= an_steps_removed a) by apply Hwa.
   rewrite chk_u_ok by (change (2 ^ 16) with 65536; lia). cbn [obind].
   eexists; eexists. split; [reflexivity|]. split; [|split; [split; assumption|split; [reflexivity|split; [|exact Hma]]]].
   - destruct Hb1 as [A B]. split; assumption.
-  - split; [exact Hd|reflexivity].
+  - split; [|reflexivity]. destruct Hd as [Hl Hw]. apply ds_with_inv.
+    + split; assumption.
+    + apply u_ok_iff. change (2 ^ 16) with 65536. lia.
+    + apply ann_pd_wfb; assumption.
+    + exact Hl.
+    + unfold ds_wfb in Hw. apply andb_true_iff in Hw as [Hw _]. apply andb_true_iff in Hw as [_ Hw]. exact Hw.
+    + apply ann_tp_wfb. exact Hwa.
 Qed.
 
 Lemma ds_good_trans a b c : ds_good a b -> ds_good b c -> ds_good a c.
@@ -317,18 +370,22 @@ Qed.
 Section Decide.
   Variable ebest : option best_msg.
   Variable so : bool.
-  Hypothesis Heb : forall g, ebest = Some g -> 0 <= an_steps_removed (b_ann g) < 255.
+  Hypothesis Heb : forall g, ebest = Some g -> best_wf g.
 
   Definition todo_ok (b : bport) : Prop :=
     bport_ok b /\
     (forall g, ebest = Some g -> b_identity g = p_identity (bp_port b) ->
-               pc_master_only (p_config (bp_port b)) = false).
+               pc_master_only (p_config (bp_port b)) = false) /\
+    (forall g, ebest = Some g -> b_identity g = p_identity (bp_port b) ->
+               is_faulty (p_state (bp_port b)) = false) /\
+    bp_side b = [] /\ bp_pending b = [].
 
   Definition decided (b b' : bport) : Prop :=
     bport_ok b' /\ same_id (bp_port b) (bp_port b') /\
     (is_slave (p_state (bp_port b')) = true ->
      exists g, ebest = Some g /\ b_identity g = p_identity (bp_port b)) /\
-    (so = true -> is_master (p_state (bp_port b')) = false).
+    (so = true -> is_master (p_state (bp_port b')) = false) /\
+    bquiet b'.
 
   Lemma bmca_decide_ok : forall todo done d,
     Forall todo_ok todo -> ds_inv d -> dd_slave_only (ds_default d) = so ->
@@ -337,29 +394,37 @@ Section Decide.
   Proof.
     induction todo as [|b todo IH]; intros done d Htodo Hd Hso; cbn [bmca_decide].
     - exists [], d. rewrite app_nil_r. split; [reflexivity|]. split; [constructor|apply ds_good_refl; exact Hd].
-    - inversion Htodo as [|? ? [Hb Hmo] Hrest]; subst.
+    - inversion Htodo as [|? ? (Hb & Hmo & Hnf & Hside & Hpend) Hrest]; subst.
       destruct (recommended_total (ds_default d) ebest (bp_best b) (p_state (bp_port b))) as [r Er].
       rewrite Er. cbn [obind]. destruct r as [rs|].
       + assert (Hrs : rs_ok b rs /\ (is_RS1 rs = true -> exists g, ebest = Some g /\ b_identity g = p_identity (bp_port b))).
-        { destruct rs; cbn [rs_ok is_RS1]; try (split; [exact I|discriminate]).
-          destruct (recommended_RS1 _ _ _ _ _ _ Er) as (g & pb & Hg & Hpb & Heq & Ha).
-          assert (Hidg : b_identity g = p_identity (bp_port b)).
-          { rewrite (best_eqb_identity _ _ Heq). apply Hb. exact Hpb. }
-          split; [|intros _; eauto]. split; [eapply Hmo; eauto|]. subst a. apply Heb. exact Hg. }
+        { assert (Hdd : dd_wfb (ds_default d) = true).
+          { destruct Hd as [_ Hw]. unfold ds_wfb in Hw. do 4 (apply andb_true_iff in Hw as [Hw _]). exact Hw. }
+          destruct rs as [d0|d0|h a|h a|h a|h a]; cbn [rs_ok is_RS1]; try (split; [exact I|discriminate]).
+          - rewrite (recommended_RM _ _ _ _ d0 (or_introl Er)). split; [exact Hdd|discriminate].
+          - rewrite (recommended_RM _ _ _ _ d0 (or_intror Er)). split; [exact Hdd|discriminate].
+          - destruct (recommended_RS1 _ _ _ _ _ _ Er) as (g & pb & Hg & Hpb & Heq & Ha & Hh).
+            assert (Hidg : b_identity g = p_identity (bp_port b)).
+            { rewrite (best_eqb_identity _ _ Heq). apply Hb. exact Hpb. }
+            split; [|intros _; eauto]. split; [eapply Hmo; eauto|]. subst a h. apply Heb. exact Hg. }
         destruct Hrs as [Hrs HS1].
-        destruct (set_recommended_state_ok b rs d Hb Hrs Hd) as (b' & d' & -> & Hb' & Hid & Hsl & Hdd & Hma).
+        destruct (set_recommended_state_ok b rs d Hb Hrs Hd) as (b' & d' & Hset & Hb' & Hid & Hsl & Hdd & Hma).
+        rewrite Hset.
         cbn [obind fst snd].
         destruct (IH (done ++ [b']) d' Hrest (proj1 Hdd)) as (done' & d'' & -> & Hdone & Hdd').
         { rewrite (proj2 Hdd). exact Hso. }
         exists (b' :: done'), d''. rewrite <- app_assoc. split; [reflexivity|].
         split; [|eapply ds_good_trans; eauto].
-        constructor; [|exact Hdone]. split; [exact Hb'|]. split; [exact Hid|]. split.
+        constructor; [|exact Hdone]. split; [exact Hb'|]. split; [exact Hid|]. split; [|split].
         * intros H. apply HS1. apply Hsl. exact H.
         * intros H. apply Hma. rewrite Hso. exact H.
+        * eapply set_recommended_state_quiet; [exact Hside|exact Hpend| |exact Hset].
+          intros H. destruct (HS1 H) as (g & Hg & Hgid). eapply Hnf; eauto.
       + apply recommended_None in Er.
         destruct (IH (done ++ [b]) d Hrest Hd Hso) as (done' & d'' & -> & Hdone & Hdd').
         exists (b :: done'), d''. rewrite <- app_assoc. split; [reflexivity|]. split; [|exact Hdd'].
-        constructor; [|exact Hdone]. split; [exact Hb|]. split; [apply same_id_refl|]. rewrite Er. split; [discriminate|reflexivity].
+        constructor; [|exact Hdone]. split; [exact Hb|]. split; [apply same_id_refl|]. rewrite Er. split; [discriminate|]. split; [reflexivity|].
+        unfold bquiet. rewrite Hside, Hpend. split; reflexivity.
   Qed.
 End Decide.
 
@@ -414,42 +479,52 @@ Qed.
 
 Theorem bmca_ok i : inst_inv i ->
   exists i' o, bmca i = Ok (i', o) /\ inst_inv i' /\ ds_default (i_ds i') = ds_default (i_ds i) /\
-               (dd_slave_only (ds_default (i_ds i)) = true -> no_master (i_ports i')).
+               (dd_slave_only (ds_default (i_ds i)) = true -> no_master (i_ports i')) /\
+               cfgs_of i' = cfgs_of i /\
+               exists bps1, o = [(-1, wr_lock)] ++ tag_ports 0 bps1 bp_side ++ tag_ports 0 bps1 bp_pending /\
+                            Forall2 (fun b p' => bquiet b /\ p_state p' = p_state (bp_port b)) bps1 (i_ports i').
 Proof.
   intros (Hports & Hds & Hids & Hnum & Hlen & Hlog & Hsl). unfold bmca.
   destruct (bmca_interval_ok _ Hlog) as [step ->]. cbn [obind].
   rewrite Hnum, Z.eqb_refl. cbn [negb].
   (* local bests *)
   destruct (omap_list_ok calc_local_best port_inv
-              (fun p b => bport_ok b /\ pres p (bp_port b)) (i_ports i)) as (bps & -> & Hbps); [|exact Hports|].
-  { intros p Hp. destruct (calc_local_best_ok p Hp) as (b & E & A & B & _). eauto. }
+              (fun p b => bport_ok b /\ pres p (bp_port b) /\ bp_side b = [] /\ bp_pending b = [] /\
+                          p_state (bp_port b) = p_state p) (i_ports i)) as (bps & -> & Hbps); [|exact Hports|].
+  { intros p Hp. destruct (calc_local_best_ok p Hp) as (b & E & A & B & C & D & F). eauto 10. }
   cbn [obind].
   set (cands := flat_map (fun b => opt_list (best_for_bmca b)) bps).
   destruct (find_best_total cands) as [ebest Eb]. rewrite Eb. cbn [obind].
   (* where Ebest comes from *)
   assert (Hsrc : forall g, ebest = Some g ->
             exists m b0, nth_error bps m = Some b0 /\ bp_best b0 = Some g /\
-                         pc_master_only (p_config (bp_port b0)) = false).
+                         pc_master_only (p_config (bp_port b0)) = false /\
+                         is_faulty (p_state (bp_port b0)) = false).
   { intros g ->. apply find_best_in in Eb. unfold cands in Eb. apply in_flat_map in Eb.
     destruct Eb as (b0 & Hin & Hg). unfold best_for_bmca in Hg.
     destruct (pc_master_only (p_config (bp_port b0))) eqn:Emo; cbn [orb] in Hg; [destruct Hg|].
-    destruct (is_faulty _); [destruct Hg|]. destruct (bp_best b0) as [g'|] eqn:Eg; [|destruct Hg].
-    destruct Hg as [<-|[]]. apply In_nth_error in Hin. destruct Hin as [m Hm]. eauto. }
+    destruct (is_faulty _) eqn:Efa; [destruct Hg|]. destruct (bp_best b0) as [g'|] eqn:Eg; [|destruct Hg].
+    destruct Hg as [<-|[]]. apply In_nth_error in Hin. destruct Hin as [m Hm]. eauto 10. }
   assert (Hbid : forall n b, nth_error bps n = Some b ->
             bport_ok b /\ p_identity (bp_port b) = mkPI (dd_clock_identity (ds_default (i_ds i))) (Z.of_nat n + 1)).
-  { intros n b Hn. destruct (Forall2_nth _ _ _ _ _ Hbps Hn) as (p & Hp & Hb & (Hid & _)).
+  { intros n b Hn. destruct (Forall2_nth _ _ _ _ _ Hbps Hn) as (p & Hp & Hb & [Hid _] & _).
     split; [exact Hb|]. rewrite Hid. apply Hids. exact Hp. }
-  assert (Heb : forall g, ebest = Some g -> 0 <= an_steps_removed (b_ann g) < 255).
-  { intros g Hg. destruct (Hsrc g Hg) as (m & b0 & Hm & Hbest & _).
+  assert (Heb : forall g, ebest = Some g -> best_wf g).
+  { intros g Hg. destruct (Hsrc g Hg) as (m & b0 & Hm & Hbest & _ & _).
     destruct (Hbid m b0 Hm) as [[_ Hb0] _]. apply Hb0. exact Hbest. }
   assert (Htodo : Forall (todo_ok ebest) bps).
   { apply Forall_forall. intros b Hin. apply In_nth_error in Hin. destruct Hin as [n Hn].
-    destruct (Hbid n b Hn) as [Hb Hidn]. split; [exact Hb|].
-    intros g Hg Hidg. destruct (Hsrc g Hg) as (m & b0 & Hm & Hbest & Hmo).
-    destruct (Hbid m b0 Hm) as [[_ Hb0] Hidm]. destruct (Hb0 g Hbest) as [Hgid _].
-    assert (n = m).
-    { rewrite Hidg, Hidn in Hgid. rewrite Hidm in Hgid. injection Hgid as Hgid. lia. }
-    subst m. rewrite Hm in Hn. inversion Hn; subst. exact Hmo. }
+    destruct (Hbid n b Hn) as [Hb Hidn].
+    assert (Hsame : forall g, ebest = Some g -> b_identity g = p_identity (bp_port b) ->
+              pc_master_only (p_config (bp_port b)) = false /\ is_faulty (p_state (bp_port b)) = false).
+    { intros g Hg Hidg. destruct (Hsrc g Hg) as (m & b0 & Hm & Hbest & Hmo & Hfa).
+      destruct (Hbid m b0 Hm) as [[_ Hb0] Hidm]. destruct (Hb0 g Hbest) as [Hgid _].
+      assert (n = m).
+      { rewrite Hidg, Hidn in Hgid. rewrite Hidm in Hgid. injection Hgid as Hgid. lia. }
+      subst m. rewrite Hm in Hn. inversion Hn; subst. split; assumption. }
+    destruct (Forall2_nth _ _ _ _ _ Hbps Hn) as (p0 & _ & _ & _ & Hsd & Hpn & _).
+    split; [exact Hb|]. split; [intros g Hg Hi; apply (Hsame g Hg Hi)|]. split; [intros g Hg Hi; apply (Hsame g Hg Hi)|].
+    split; assumption. }
   destruct (bmca_decide_ok ebest _ Heb bps [] (i_ds i) Htodo Hds eq_refl) as (bps1 & d1 & -> & Hdec & Hdd).
   cbn [obind app].
   destruct (omap_list_ok (fun b => step_announce_age step (bp_port b)) bport_ok
@@ -459,36 +534,42 @@ Proof.
   { eapply Forall2_Forall_r; [exact Hdec|]. intros a b (H & _). exact H. }
   cbn [obind]. eexists; eexists. split; [reflexivity|].
   cut (inst_inv (mkInst d1 (i_log_bmca i) ports) /\
-       (dd_slave_only (ds_default (i_ds i)) = true -> no_master ports)).
-  { intros [H1 H2]. split; [exact H1|]. split; [apply Hdd|exact H2]. }
+       (dd_slave_only (ds_default (i_ds i)) = true -> no_master ports) /\
+       map p_config ports = map p_config (i_ports i)).
+  { intros (H1 & H2 & H3). split; [exact H1|]. split; [apply Hdd|]. split; [exact H2|]. split; [exact H3|].
+    exists bps1. split; [reflexivity|]. cbn [i_ports].
+    clear - Hdec Hage. revert ports Hage. induction Hdec as [|a b la lb (_ & _ & _ & _ & Hq) _ IH]; intros ports Hage;
+      inversion Hage as [|? p' ? lp (_ & _ & Hst) Hrest]; subst; constructor; [split; assumption|apply IH; exact Hrest]. }
   (* the composite relation between old and new ports *)
-  assert (HT : Forall2 (fun p p' => port_inv p' /\ p_identity p' = p_identity p /\
+  assert (HT : Forall2 (fun p p' => port_inv p' /\ same_id p p' /\
                           (is_slave (p_state p') = true ->
                            exists g, ebest = Some g /\ b_identity g = p_identity p) /\
                           (dd_slave_only (ds_default (i_ds i)) = true -> is_master (p_state p') = false))
                        (i_ports i) ports).
-  { assert (Hmid : Forall2 (fun b p' => port_inv p' /\ p_identity p' = p_identity (bp_port b) /\
+  { assert (Hmid : Forall2 (fun b p' => port_inv p' /\ same_id (bp_port b) p' /\
                           (is_slave (p_state p') = true ->
                            exists g, ebest = Some g /\ b_identity g = p_identity (bp_port b)) /\
                           (dd_slave_only (ds_default (i_ds i)) = true -> is_master (p_state p') = false)) bps ports).
     { eapply Forall2_comp; [|exact Hdec|exact Hage].
-      intros a b c (Hb1 & [Hid1 _] & Hsl1 & Hma1) (Hp' & [Hid2 _] & Hst).
-      split; [exact Hp'|]. split; [congruence|]. split.
+      intros a b c (Hb1 & Hid1 & Hsl1 & Hma1 & _) (Hp' & Hid2 & Hst).
+      split; [exact Hp'|]. split; [eapply same_id_trans; eauto|]. split.
       - intros H. rewrite Hst in H. exact (Hsl1 H).
       - intros H. rewrite Hst. exact (Hma1 H). }
     eapply Forall2_comp; [|exact Hbps|exact Hmid].
-    intros p b p' (Hb & Hid & _) (Hp' & Hid2 & Hsl2 & Hma2).
-    split; [exact Hp'|]. split; [congruence|]. split; [|exact Hma2]. intros H.
-    destruct (Hsl2 H) as (g & Hg & Hgid). exists g. split; [exact Hg|congruence]. }
-  split.
+    intros p b p' (Hb & Hpres & _) (Hp' & Hid2 & Hsl2 & Hma2).
+    pose proof (pres_same_id _ _ Hpres) as Hid.
+    split; [exact Hp'|]. split; [eapply same_id_trans; eauto|]. split; [|exact Hma2]. intros H.
+    destruct (Hsl2 H) as (g & Hg & Hgid). exists g. split; [exact Hg|]. destruct Hid as [Hid _]. congruence. }
+  split; [|split].
   2: { intros Hso. eapply Forall2_Forall_r; [exact HT|]. intros a b (_ & _ & _ & H). exact (H Hso). }
+  2: { clear - HT. induction HT as [|a b la lb (_ & [_ Hc] & _) _ IH]; cbn; [reflexivity|]. rewrite Hc, IH. reflexivity. }
   unfold inst_inv. cbn [i_ports i_ds i_log_bmca].
   destruct Hdd as [Hd1 Hdef]. rewrite Hdef.
   assert (Hlen' : length ports = length (i_ports i)) by (symmetry; eapply Forall2_len; exact HT).
   split; [eapply Forall2_Forall_r; [exact HT|]; intros a b (H & _); exact H|].
   split; [exact Hd1|].
   split.
-  { intros n p' Hn. destruct (Forall2_nth _ _ _ _ _ HT Hn) as (p & Hp & _ & Hid & _). rewrite Hid. apply Hids. exact Hp. }
+  { intros n p' Hn. destruct (Forall2_nth _ _ _ _ _ HT Hn) as (p & Hp & _ & [Hid _] & _). rewrite Hid. apply Hids. exact Hp. }
   split; [rewrite Hlen'; exact Hnum|]. split; [rewrite Hlen'; exact Hlen|]. split; [exact Hlog|].
   unfold nslaves. apply count_le_1. intros n m x y Hn Hm Hx Hy.
   destruct (Forall2_nth _ _ _ _ _ HT Hn) as (p & Hp & _ & _ & Hsx & _).
